@@ -44,17 +44,19 @@ type Mark struct {
 	Off, Len int
 	Kind     MarkKind
 	Rule     string // for MCount/MElem: rule class of the owning collection ("bounds", "lexical", "nodup", "oneofeach", "mustoccur", "map", "plain")
+	Coll     int    // for MCount/MElem: id of the collection instance (count prefix and its elements share it)
 }
 
 type refEnc struct {
 	buf   []byte
 	marks []Mark
 	on    bool
+	coll  *int
 }
 
 // RefEncode returns the documented encoding of v as a value of shape s, and the marks.
 func RefEncode(s *Shape, v *Val) ([]byte, []Mark) {
-	e := &refEnc{on: true}
+	e := &refEnc{on: true, coll: new(int)}
 	e.enc(s, v)
 	return e.buf, e.marks
 }
@@ -68,7 +70,41 @@ func refBytes(s *Shape, v *Val) []byte {
 
 func (e *refEnc) mark(off, n int, k MarkKind, rule string) {
 	if e.on {
-		e.marks = append(e.marks, Mark{off, n, k, rule})
+		e.marks = append(e.marks, Mark{Off: off, Len: n, Kind: k, Rule: rule})
+	}
+}
+
+// sub encodes one collection element with its own marks.
+func (e *refEnc) sub(s *Shape, v *Val) *refEnc {
+	x := &refEnc{on: e.on, coll: e.coll}
+	x.enc(s, v)
+	return x
+}
+
+// collection appends count prefix and (possibly sorted) parts, rebasing the marks of the parts.
+func (e *refEnc) collection(lp uint8, parts []*refEnc, sorted bool, rule string) {
+	id := 0
+	if e.on {
+		*e.coll++
+		id = *e.coll
+	}
+	e.prefix(lp, len(parts), MCount, rule)
+	if e.on {
+		e.marks[len(e.marks)-1].Coll = id
+	}
+	if sorted {
+		sort.SliceStable(parts, func(i, j int) bool { return bytes.Compare(parts[i].buf, parts[j].buf) < 0 })
+	}
+	for _, p := range parts {
+		base := len(e.buf)
+		if e.on {
+			e.marks = append(e.marks, Mark{Off: base, Len: len(p.buf), Kind: MElem, Rule: rule, Coll: id})
+			for _, m := range p.marks {
+				m.Off += base
+				e.marks = append(e.marks, m)
+			}
+		}
+		e.buf = append(e.buf, p.buf...)
 	}
 }
 
@@ -164,31 +200,25 @@ func (e *refEnc) enc(s *Shape, v *Val) {
 		e.code(s.Code)
 		e.buf = append(e.buf, v.S...)
 	case Array, Slice:
-		rule := RuleClass(s)
-		e.prefix(s.LP, len(v.L), MCount, rule)
-		parts := make([][]byte, len(v.L))
+		parts := make([]*refEnc, len(v.L))
 		for i, el := range v.L {
-			parts[i] = refBytes(s.Elem, el)
+			parts[i] = e.sub(s.Elem, el)
 		}
-		if s.R.Sorted() {
-			sort.SliceStable(parts, func(i, j int) bool { return bytes.Compare(parts[i], parts[j]) < 0 })
-		}
-		for _, p := range parts {
-			e.mark(len(e.buf), len(p), MElem, rule)
-			e.buf = append(e.buf, p...)
-		}
+		e.collection(s.LP, parts, s.R.Sorted(), RuleClass(s))
 	case Map:
 		n := len(v.L) / 2
-		e.prefix(s.LP, n, MCount, "map")
-		parts := make([][]byte, n)
+		parts := make([]*refEnc, n)
 		for i := 0; i < n; i++ {
-			parts[i] = append(refBytes(s.Key, v.L[2*i]), refBytes(s.Elem, v.L[2*i+1])...)
+			p := e.sub(s.Key, v.L[2*i])
+			q := e.sub(s.Elem, v.L[2*i+1])
+			for _, m := range q.marks {
+				m.Off += len(p.buf)
+				p.marks = append(p.marks, m)
+			}
+			p.buf = append(p.buf, q.buf...)
+			parts[i] = p
 		}
-		sort.SliceStable(parts, func(i, j int) bool { return bytes.Compare(parts[i], parts[j]) < 0 })
-		for _, p := range parts {
-			e.mark(len(e.buf), len(p), MElem, "map")
-			e.buf = append(e.buf, p...)
-		}
+		e.collection(s.LP, parts, true, "map")
 	case Struct:
 		e.code(s.Code)
 		e.fields(s, v)
@@ -235,8 +265,7 @@ func (e *refEnc) fields(s *Shape, v *Val) {
 				e.mark(off, 4, MMarker, "")
 				continue
 			}
-			inner := &refEnc{on: e.on}
-			inner.enc(f.S, fv)
+			inner := e.sub(f.S, fv)
 			off := len(e.buf)
 			e.buf = binary.LittleEndian.AppendUint32(e.buf, uint32(len(inner.buf)))
 			e.mark(off, 4, MMarker, "")
